@@ -5,3 +5,5 @@ MUTANTS=[
 MUTANTS.append(("C14","S5-receipts-null-result-accepted (seeded/C14-d) on C14",dict(patch="/verif/seeded/C14-d/patch.diff")))
 MUTANTS.append(("C14","S6-required-field-skipped-when-column-declared (seeded/C14-e) on C14",dict(patch="/verif/seeded/C14-e/patch.diff")))
 MUTANTS.append(("C07","S7-cache-reuses-longer-segment (seeded/C07-f) on C07",dict(patch="/verif/seeded/C07-f/patch.diff")))
+MUTANTS.append(("C07","S8-decode-wraps-17-18-digit-quantities (seeded/C07-g) on C07",dict(patch="/verif/seeded/C07-g/patch.diff")))
+MUTANTS.append(("C14","S9-filter-plans-from-column-names (seeded/C14-g) on C14",dict(patch="/verif/seeded/C14-g/patch.diff")))
